@@ -624,8 +624,6 @@ def oracle_c09(H, evs, tables, panic, fail):
                     fail("later-call-not-failed-with-cause", "handle %d issued after the death completed with %s" % (m["h"], rs))
 
 
-def build_bins():
-    return {"release": ["clihist"], "debug": ["clihist"]}
 
 
 # ---------------------------------------------------------------- running
@@ -701,3 +699,228 @@ def finish_cleanup(H):
     for uid in list(H.unacked):
         H.back(H.resp_ok(uid, val=True), what="unsub-ack", id=uid)
     H.unacked = []
+
+
+# ---------------------------------------------------------------- targeted scenarios
+
+def new_hist(rng, idstr=None, qcap=16, bufcap=8, gate=0):
+    return Hist(rng, rng.choice([0, 1]) if idstr is None else idstr, qcap, bufcap, gate)
+
+
+def answer_call_h(H, h, ok=True):
+    i = H.calls.pop(h)
+    H.answered.append(i)
+    o = H.resp_ok(i) if ok else H.resp_err(i)
+    H.back(o, what="answer", id=i, h=h, payload=o)
+
+
+def accept_sub_h(H, h, sid=None):
+    i, uid, um, nm = H.psubs.pop(h)
+    if sid is None:
+        H.sidn += 1
+        sid = H.sidn if H.rng.random() < 0.5 else "s%d" % H.sidn
+    H.back(H.resp_ok(i, val=sid), what="sub-ok", h=h, sid=sid, id=i, uid=uid)
+    H.active[h] = dict(sid=sid, id=i, uid=uid, um=um, nm=nm, h=h)
+    H.answered.append(i)
+    return H.active[h]
+
+
+def push_group(H, s, vals):
+    """one frame carrying the pushes `vals` for subscription s: single object when one value (or array of one at random)"""
+    objs = [H.notif(s["nm"], s["sid"], v) for v in vals]
+    items = [dict(what="push", sid=s["sid"], val=v) for v in vals]
+    if len(objs) == 1 and H.rng.random() < 0.7:
+        H.back(objs[0], what="pushes", items=items, grouped=False)
+    else:
+        H.back(J(objs), what="pushes", items=items, grouped=True)
+
+
+def compositions(n):
+    """all ways to cut 1..n into consecutive groups"""
+    if n == 0:
+        yield []
+        return
+    for first in range(1, n + 1):
+        for rest in compositions(n - first):
+            yield [first] + rest
+
+
+def c03_permutation_histories(rng, kmax=3):
+    """k concurrent calls answered in every order, optionally with one answer duplicated or omitted"""
+    out = []
+    for k in range(1, kmax + 1):
+        for perm in itertools.permutations(range(k)):
+            for variant in ("exact", "omit", "dup"):
+                H = new_hist(rng)
+                hs = []
+                for _ in range(k):
+                    H.op_call()
+                    hs.append(H.h)
+                order = [hs[j] for j in perm]
+                if variant == "omit":
+                    order = order[:-1]
+                for h in order:
+                    answer_call_h(H, h, ok=rng.random() < 0.8)
+                if variant == "dup" and H.answered:
+                    i = H.answered[0]
+                    H.back(H.resp_ok(i), what="bad-late-answer", id=i)
+                    H.dead = True
+                H.clean = False
+                out.append(H)
+    return out
+
+
+def c05_grouping_family(rng, n, bufcap, idstr):
+    """the same n pushes for one subscription delivered in every grouping; the consumer polls only afterwards.
+    Returns list of Hist; the oracle demands identical stream observations across the family."""
+    fam = []
+    seedvals = ["v%d" % j for j in range(n)]
+    for comp in compositions(n):
+        H = new_hist(rng, idstr=idstr, bufcap=bufcap)
+        H.op_sub()
+        s = accept_sub_h(H, H.h, sid="fam")
+        pos = 0
+        for g in comp:
+            push_group(H, s, seedvals[pos:pos + g])
+            pos += g
+        for _ in range(n + 2):
+            H.add("next %d" % s["h"], kind="next")
+        H.clean = False
+        H.family = ("grouping", n, bufcap)
+        fam.append(H)
+    return fam
+
+
+def c05_lag_histories(rng):
+    """buffer n, more than n unread pushes: lag; then drain; with and without a busy (gated) send task and late pushes"""
+    out = []
+    for bufcap in (1, 2, 3):
+        for gate in (0, 1):
+            for extra in (1, 2):
+                for late in (0, 1, 2):
+                    H = new_hist(rng, bufcap=bufcap, gate=gate, qcap=rng.choice([2, 16]))
+                    H.op_sub()
+                    if gate:
+                        H.add("release", kind="release")
+                    s = accept_sub_h(H, H.h)
+                    if gate:
+                        H.op_call()          # its transport write keeps the send task busy
+                    k = 0
+                    for _ in range(bufcap + extra):
+                        push_group(H, s, ["p%d" % k]) if not gate else H.add(
+                            "back %s" % hx(J(H.notif(s["nm"], s["sid"], "p%d" % k))), kind="back", what="pushes",
+                            items=[dict(what="push", sid=s["sid"], val="p%d" % k)], grouped=False)
+                        k += 1
+                    for _ in range(bufcap):
+                        H.add("next %d" % s["h"], kind="next")
+                    for _ in range(late):
+                        H.add("back %s" % hx(J(H.notif(s["nm"], s["sid"], "p%d" % k))), kind="back", what="pushes",
+                              items=[dict(what="push", sid=s["sid"], val="p%d" % k)], grouped=False)
+                        k += 1
+                        H.add("next %d" % s["h"], kind="next")
+                    for _ in range(3):
+                        H.add("release", kind="release")
+                        H.add("next %d" % s["h"], kind="next")
+                    H.clean = False
+                    H.expect_lag = s["h"]
+                    out.append(H)
+    return out
+
+
+def c12_batch_histories(rng, nmax=4, full=False):
+    out = []
+    for n in range(1, nmax + 1):
+        perms = list(itertools.permutations(range(n)))
+        if not full and len(perms) > 8:
+            perms = rng.sample(perms, 8)
+        for perm in perms:
+            for variant in ("perm", "missing", "dup", "foreign", "two-batches"):
+                H = new_hist(rng)
+                if rng.random() < 0.5:
+                    H.op_call()
+                H.op_batch()
+                hb = H.h
+                lo, nn = H.batches[hb]
+                # force batch size n: regenerate until it has n entries
+                while nn != n:
+                    H = new_hist(rng)
+                    H.op_batch()
+                    hb = H.h
+                    lo, nn = H.batches[hb]
+                ids = [lo + j for j in perm]
+                mode = "perm"
+                if variant == "missing" and n > 1:
+                    ids.pop(rng.randrange(len(ids)))
+                    mode = "missing"
+                elif variant == "dup":
+                    ids.append(rng.choice(ids))
+                    mode = "dup"
+                elif variant == "foreign":
+                    ids.append(rng.choice([lo + n, lo + n + 5, 2**64 - 1] + ([lo - 1] if lo else [])))
+                    mode = "foreign"
+                elif variant == "two-batches":
+                    H.op_batch()
+                    hb2 = H.h
+                    lo2, n2 = H.batches[hb2]
+                    # reply to the first batch lacks its leading entry / reply mixes both
+                    ids2 = list(range(lo2, lo2 + n2))
+                    if rng.random() < 0.5 and n > 1:
+                        ids = ids[1:]
+                        mode = "missing"
+                    objs2 = [H.resp_ok(i) for i in ids2]
+                    H.batches.pop(hb2)
+                    H.back(J(objs2), what="batch-answer", h=hb2, lo=lo2, n=n2, mode="perm", objs=objs2, items=[])
+                H.batches.pop(hb)
+                objs = [H.resp_ok(i) if rng.random() < 0.8 else H.resp_err(i) for i in ids]
+                H.back(J(objs), what="batch-answer", h=hb, lo=lo, n=n, mode=mode, objs=objs, items=[])
+                H.clean = False
+                out.append(H)
+    return out
+
+
+def c18_cycle_history(rng, reps, kinds=None):
+    """long repetitions of complete cycles; ends quiescent"""
+    H = new_hist(rng, qcap=16, bufcap=4)
+    kinds = kinds or ["call", "sub-unsub", "sub-refused", "sub-closed", "batch", "subm", "sub-drop", "sub-lag"]
+    for _ in range(reps):
+        k = rng.choice(kinds)
+        if k == "call":
+            H.op_call(); answer_call_h(H, H.h, ok=rng.random() < 0.7)
+        elif k == "batch":
+            H.op_batch(); H.answer_batch_exact = True
+            h = H.h; lo, n = H.batches.pop(h)
+            ids = list(range(lo, lo + n)); rng.shuffle(ids)
+            H.back(J([H.resp_ok(i) for i in ids]), what="batch-answer", h=h, lo=lo, n=n, mode="perm", objs=None, items=[])
+        elif k == "sub-refused":
+            H.op_sub(); h = H.h; i, uid, um, nm = H.psubs.pop(h)
+            H.back(H.resp_err(i), what="sub-refused", h=h, id=i, uid=uid)
+        elif k in ("sub-unsub", "sub-drop", "sub-closed", "sub-lag"):
+            H.op_sub(); h = H.h; s = accept_sub_h(H, h)
+            for j in range(rng.choice([0, 1, 2])):
+                push_group(H, s, ["c%d" % j])
+                H.add("next %d" % h, kind="next")
+            if k == "sub-lag":
+                for j in range(6):
+                    push_group(H, s, ["l%d" % j])
+            if k == "sub-closed":
+                H.active.pop(h); H.ended.append(s)
+                H.back(H.notif(s["nm"], s["sid"], "bye", err=True), what="close", sid=s["sid"], h=h, grouped=False)
+                H.add("drop %d" % h, kind="drop", sh=h, sid=s["sid"], uid=s["uid"])
+            else:
+                H.active.pop(h); s["gone"] = True; H.ended.append(s)
+                if k == "sub-drop":
+                    H.add("drop %d" % h, kind="drop", sh=h, sid=s["sid"], uid=s["uid"])
+                else:
+                    H.add("unsub %d %d" % (H.newh(), h), kind="unsub", sh=h, sid=s["sid"], uid=s["uid"])
+                H.back(H.resp_ok(s["uid"], val=True), what="unsub-ack", id=s["uid"])
+        elif k == "subm":
+            H.op_subm(); h = H.h
+            me = H.methods.pop(h)
+            if [m for _, m in H.ev if m.get("kind") == "subm" and m.get("method") == me and m["h"] != h and not m.get("ended")]:
+                pass
+            H.back({"jsonrpc": "2.0", "method": me, "params": [1]}, what="pushes", items=[], grouped=False)
+            H.add("unsub %d %d" % (H.newh(), h), kind="munsub", sh=h)
+            H.ev[-3][1]["ended"] = True
+    H.clean = True
+    H.cleanup_from = len(H.ev)
+    return H
